@@ -16,6 +16,12 @@ spec('wf_TS', {'t': TS}, Bool,
      'inv_TS(t) and (t.ts_type == 7 or t.ts_type == 8) and t.start_port <= t.end_port '
      'and t.start_addr.value <= t.end_addr.value')
 
+# closed form of containment (the same relation as the packet-set inclusion above, by 'sound' and 'complete')
+spec('ts_subset', {'a': TS, 'b': TS}, Bool,
+     'a.ts_type == b.ts_type and (b.ip_proto == 0 or a.ip_proto == b.ip_proto) '
+     'and b.start_port <= a.start_port and a.end_port <= b.end_port '
+     'and b.start_addr.value <= a.start_addr.value and a.end_addr.value <= b.end_addr.value')
+
 contract('message.TrafficSelector.is_subset', params={'other': TS}, returns=Bool, props=['C12'],
          requires=['wf_TS(self)', 'wf_TS(other)'],
          raises={},
@@ -25,6 +31,7 @@ contract('message.TrafficSelector.is_subset', params={'other': TS}, returns=Bool
                       '1 <= proto <= 255 and 0 <= port <= 65535 and ts_member(ver, proto, port, addr, self), '
                       'ts_member(ver, proto, port, addr, other))))',
              # completeness: not is_subset => some packet of self is not a packet of other
+             'closed-form': 'result == ts_subset(self, other)',
              'complete': 'implies(not result, exists(lambda ver, proto, port, addr: '
                          '1 <= proto <= 255 and 0 <= port <= 65535 and ts_member(ver, proto, port, addr, self) '
                          'and not ts_member(ver, proto, port, addr, other)))',
@@ -38,3 +45,29 @@ contract('message.TrafficSelector.get_port', returns=Int, props=['C12', 'C14'],
          ensures={'port': 'result == (0 if (self.start_port == 0 and self.end_port == 65535) else self.end_port)',
                   # exactness: the single kernel port denotes the selector's port range iff it is one port or any
                   'exact': 'implies(self.start_port == self.end_port and self.start_port != 0, result == self.start_port)'})
+
+# ---- responder-side narrowing (RFC 7296 2.9): what IkeSa._get_ipsec_configuration hands back ------------------------
+IPSEC = Rec('IpsecConfiguration')
+spec('wf_TSs', {'l': List(TS)}, Bool, 'forall(lambda k: implies(0 <= k and k < len(l), wf_TS(at(l, k))))')
+spec('wf_protect', {'l': List(IPSEC)}, Bool,
+     'forall(lambda k: implies(0 <= k and k < len(l), wf_TS(at(l, k).my_ts) and wf_TS(at(l, k).peer_ts)))')
+spec('ts_in_some', {'t': TS, 'l': List(TS)}, Bool,
+     'exists(lambda k: 0 <= k and k < len(l) and ts_subset(t, at(l, k)))')
+contract('ikesa.IkeSa._get_ipsec_configuration',
+         params={'payload_tsi': Rec('PayloadTS'), 'payload_tsr': Rec('PayloadTS')},
+         returns=Tuple(IPSEC, TS, TS), props=['C12'],
+         requires=['live_ref(self)', 'wf_TSs(payload_tsi.traffic_selectors)', 'wf_TSs(payload_tsr.traffic_selectors)',
+                   'wf_protect(self.configuration.protect)'],
+         modifies=[], raises={'message.TsUnacceptable': 'True'},
+         # the three loops only search: nothing is carried from one iteration to the next
+         loops={0: loop(index='_a', invariant=['0 <= _a <= len(payload_tsi.traffic_selectors)']),
+                1: loop(index='_b', invariant=['0 <= _b <= len(payload_tsr.traffic_selectors)']),
+                2: loop(index='_c', invariant=['0 <= _c <= len(self.configuration.protect)'])},
+         ensures={
+             'C12:policy': 'result._0 in self.configuration.protect',
+             # the selectors handed back (ours, the peer's) lie inside the chosen policy entry ...
+             'C12:inside-policy': 'ts_subset(result._1, result._0.my_ts) and ts_subset(result._2, result._0.peer_ts)',
+             # ... and inside what the initiator proposed: only ever narrowed
+             'C12:inside-proposed': 'ts_in_some(result._1, payload_tsr.traffic_selectors) '
+                                    'and ts_in_some(result._2, payload_tsi.traffic_selectors)',
+         })
